@@ -28,6 +28,16 @@ fn float_parts(want: &str, tier: Tier, out: &mut Vec<PartSpec>) {
     }
 }
 
+/// long float tables at tiny precisions: more symbols than 2^PRECISION quanta (must be refused, or give a valid model)
+fn float_long_parts(_want: &str, tier: Tier, out: &mut Vec<PartSpec>) {
+    let q = tier == Tier::Quick;
+    for (key, nletters, maxlen, sub) in [("f64/u8/2", 3usize, if q { 8 } else { 10 }, "s3"), ("f64/u8/3", 3, if q { 10 } else { 12 }, "s3"), ("f32/u8/4", 2, if q { 17 } else { 19 }, "s2")] {
+        let (_, total) = mfam::float_space(nletters, maxlen, 2);
+        out.push(PartSpec { part: format!("float/{key}/{nletters}/{maxlen}/2/{sub}"), total, chunk: 4000,
+            label: format!("long float tables {key}: all tables of length 0..={maxlen} over {nletters} letters (more symbols than 2^PRECISION) x 2 normalization variants") });
+    }
+}
+
 fn fixed_parts(_want: &str, tier: Tier, out: &mut Vec<PartSpec>) {
     let q = tier == Tier::Quick;
     for key in mfam2::FIXED_PARTS_U8 {
@@ -82,6 +92,7 @@ fn qnew_parts(_want: &str, _tier: Tier, out: &mut Vec<PartSpec>) {
 pub fn parts_for(want: &str, tier: Tier) -> Vec<PartSpec> {
     let mut v = vec![];
     float_parts(want, tier, &mut v);
+    float_long_parts(want, tier, &mut v);
     fixed_parts(want, tier, &mut v);
     uniform_parts(want, tier, &mut v);
     if want != "C19" && want != "C20" {
